@@ -197,3 +197,192 @@ def run_scripts(work, scripts, seed, tier, tag, jobs=12):
         viol.append({"line": ln, "guard": g, "phase": phase, "k": k, "cls": cls, "script": sid, "step": idx,
                      "event": lines[ln - 1], "transport": next((s["transport"] for s in scripts if s["id"] == sid), "?")})
     return {"report": rep, "result": res, "viol": viol, "trace": tp, "lines": lines, "faults": rep.get("faults") or []}
+
+
+# ---------------------------------------------------------------- C03 / C04: scripts from the Policy model
+
+def policy_states(work, mode):
+    dot = work.path("policy-%s.dot" % mode)
+    cfgf = "MC_PolicyHost.cfg" if mode == "host" else "MC_PolicyAddr.cfg"
+    r = design_check("MC_Policy", cfgf, work, workers=8, timeout=600, extra=["-dump", "dot", dot])
+    nodes, roots, edges = parse_dot(dot)
+    qs = []
+    for n in sorted(nodes):
+        v = state_vars(nodes[n])
+        qs.append(parse_tla_value(v["q"]))
+    return r, qs
+
+
+ADDR_TEXT = {"a": "10.0.0.1", "b": "10.0.0.2", "c": "::1", "c2": "0:0:0:0:0:0:0:1", "p": "192.168.9.9", "zz": "172.16.0.9"}
+ADDR_PEER = {"a": "127.0.0.1", "b": "127.0.0.2", "c": "::1", "c2": "::1", "p": "127.0.0.9"}
+
+
+def policy_script(q, i, seed, mode):
+    h = stable_hash(json.dumps(q, sort_keys=True) + str(seed))
+    tokenAuth = q["tokenAuth"]
+    user = "".join(q["user"])
+    cfg = {"tokenAuth": tokenAuth, "smartCard": False, "auth": "openid" if tokenAuth else "ntlm", "sel": q["sel"],
+           "hosts": q["hosts"], "verifyIp": q["verifyIp"], "idle": 0}
+    tun = {"user": user, "hostName": ["H1"], "hostPort": "PA", "entry": q["hosts"][0]}
+    if tokenAuth:
+        # try to obtain a token for the model's token host
+        th = q["tokHost"]
+        if q["sel"] == "any":
+            tun["hostName"], tun["hostPort"] = th[:-2], th[-1]
+            if tun["hostName"][:1] == ["["]:
+                tun["hostName"] = tun["hostName"][1:-1]
+        else:
+            for e in q["hosts"]:
+                sub = []
+                done = False
+                for x in e:
+                    if x == "PH" and not done:
+                        sub += q["user"]
+                        done = True
+                    else:
+                        sub.append(x)
+                if sub == th:
+                    tun["entry"] = e
+        if user == "":
+            tun["login"] = "7"
+    else:
+        if user == "":
+            return None  # an empty user name cannot be authenticated by NTLM: no tunnel to test
+        tun["user"] = user
+        cfg["users"] = "ntlm"
+    if mode == "addr":
+        ta = q["tokAddr"]
+        # issuance address: through X-Forwarded-For (any text) or as the TCP peer
+        if h % 2 == 0 or ta["text"] == "c2":
+            tun["mintXFF"] = ADDR_TEXT[ta["text"]]
+        else:
+            tun["mintIP"] = ADDR_PEER[ta["text"]]
+        tun["useIP"] = ADDR_PEER[q["peer"]["text"]]
+        tun["useXFF"] = ", ".join(ADDR_TEXT[x["text"]] for x in q["xff"])
+        if not tokenAuth:
+            tun["mintXFF"] = tun.get("mintXFF", "")
+    caps = 2 if tokenAuth else 0
+    cls = "valid"
+    if mode == "host" and h % 19 == 0:
+        cls = ["long", "odd", "trunc"][h % 3]
+    steps = [{"k": "hs", "cls": "valid", "caps": caps, "major": 1, "minor": 0},
+             {"k": "create", "cls": "valid", "cookie": "good" if tokenAuth else "none"},
+             {"k": "auth", "cls": "valid"},
+             {"k": "chan", "cls": cls, "name": q["name"], "port": q["port"]},
+             {"k": "data", "cls": "valid", "n": 8}]
+    return {"id": "%s%05d" % (mode[0], i), "origin": "policy:%s" % mode, "cfg": cfg, "transport": ["ws", "legacy"][h % 2], "tun": tun, "steps": steps}
+
+
+def gen_policy_scripts(work, mode, tier, seed, quick_n=1500):
+    r, qs = policy_states(work, mode)
+    scripts = []
+    for i, q in enumerate(qs):
+        s = policy_script(q, i, seed, mode)
+        if s:
+            scripts.append(s)
+    if tier == "quick" and len(scripts) > quick_n:
+        # keep every (sel, hosts, name) class, sample the rest
+        rng = random.Random(seed)
+        buckets = collections.defaultdict(list)
+        for s in scripts:
+            st = s["steps"][3]
+            buckets[(s["cfg"]["sel"], json.dumps(s["cfg"]["hosts"]), json.dumps(st["name"]), s["cfg"]["tokenAuth"])].append(s)
+        keep = []
+        per = max(1, quick_n // max(1, len(buckets)))
+        for k in sorted(buckets):
+            b = buckets[k]
+            rng.shuffle(b)
+            keep += b[:per]
+        scripts = keep
+    return r, scripts, len(qs)
+
+
+# ---------------------------------------------------------------- C17: capability negotiation
+
+def gen_caps_scripts(tier, seed):
+    rng = random.Random(seed)
+    if tier == "thorough":
+        vals = list(range(65536))
+    else:
+        vals = sorted(set(list(range(64)) + [v | (hi << 4) for v in range(16) for hi in (1, 2, 4, 8, 16, 0x80, 0x100, 0x7ff, 0xfff)] +
+                          [rng.randrange(65536) for _ in range(300)] + [65535, 65534, 65533, 65532, 32768, 32769, 32770]))
+    scripts = []
+    for ta in (False, True):
+        for sc in (False, True):
+            for i, v in enumerate(vals):
+                h = stable_hash("caps%d%s%s%d" % (v, ta, sc, seed))
+                cfg = {"tokenAuth": ta, "smartCard": sc, "auth": "openid" if ta else "ntlm", "sel": "roundrobin", "hosts": [["H1", ":", "PA"]], "verifyIp": True, "idle": 0}
+                tun = dict(H_A, user="user1" if ta else "nuser1")
+                steps = [{"k": "hs", "cls": "valid", "caps": v, "major": h % 256, "minor": (h >> 8) % 256, "version": (h >> 16) % 65536}]
+                if tier == "quick" or v < 64:
+                    steps.append({"k": "create", "cls": "valid", "cookie": "good" if ta else "none"})
+                scripts.append({"id": "c%d%d-%05d" % (ta, sc, v), "origin": "caps", "cfg": cfg, "transport": ["ws", "legacy"][h % 2 if tier == "quick" else (1 if h % 16 == 0 else 0)],
+                                "tun": tun, "steps": steps})
+    return scripts
+
+
+# ---------------------------------------------------------------- C16: responses under every policy configuration
+
+IDLES = [-2147483648, -1, 0, 1, 30, 65536, 2147483647]
+
+
+def gen_c16_scripts(tier, seed):
+    scripts = []
+    names = ["clipboard", "port", "drive", "printer", "pnp", "disableAll", "enableAll"]
+    n = 0
+    for mask in range(128):
+        redir = {nm: bool(mask >> b & 1) for b, nm in enumerate(names)}
+        idles = IDLES if tier == "thorough" else [IDLES[(mask + seed) % len(IDLES)]]
+        for idle in idles:
+            for ta, sc in ((True, False), (False, False), (True, True), (False, True)):
+                h = stable_hash("c16-%d-%d-%s-%s-%d" % (mask, idle, ta, sc, seed))
+                if tier == "quick" and (ta, sc) != [(True, False), (False, False), (True, True), (False, True)][mask % 4]:
+                    continue
+                cfg = {"tokenAuth": ta, "smartCard": sc, "auth": "openid" if ta else "ntlm", "sel": "unsigned" if ta else "roundrobin",
+                       "hosts": [["H1", ":", "PA"], ["H1", ":", "PD"]], "verifyIp": True, "idle": idle, "redir": redir}
+                user = "user1" if ta else "nuser1"
+                caps = (2 if ta else 0) | (1 if sc else 0)
+                hs = {"k": "hs", "cls": "valid", "caps": caps, "major": 1, "minor": 0}
+                good = {"k": "create", "cls": "valid", "cookie": "good" if ta else "none"}
+                auth = {"k": "auth", "cls": "valid"}
+                outcomes = {
+                    "accepted": (H_A, [hs, good, auth, {"k": "chan", "cls": "valid", "name": ["H1"], "port": "PA"}, {"k": "data", "n": 5}, {"k": "close"}]),
+                    "wrongphase": (H_A, [hs, auth, good]),
+                    "deniedhost": (H_A, [hs, good, auth, {"k": "chan", "cls": "valid", "name": ["H1"], "port": "PE"}]),
+                    "unreachable": ({"hostName": ["H1"], "hostPort": "PD", "entry": ["H1", ":", "PD"]}, [hs, good, auth, {"k": "chan", "cls": "valid", "name": ["H1"], "port": "PD"}]),
+                    "mismatch": (H_A, [{"k": "hs", "cls": "valid", "caps": 4 if caps else 4, "major": 1, "minor": 0}, good]),
+                    "badcookie": (H_A, [hs, {"k": "create", "cls": "valid", "cookie": "bad"}, auth]),
+                    "repeat": (H_A, [hs, hs]),
+                    "closeearly": (H_A, [hs, good, auth, {"k": "close"}]),
+                }
+                for on in sorted(outcomes):
+                    hp, steps = outcomes[on]
+                    tun = dict(hp, user=user)
+                    scripts.append({"id": "o%05d-%s" % (n, on), "origin": "c16:%s" % on, "cfg": cfg, "transport": ["ws", "legacy"][(h + len(on)) % 2], "tun": tun, "steps": steps})
+                    n += 1
+    return scripts
+
+
+# ---------------------------------------------------------------- C02 at tunnel level: every forged cookie class
+
+BAD_KINDS = ["garbage", "emptystr", "expired", "wrongkey", "algnone", "hs384", "hs512", "rs256", "wrongiss", "noiss", "revoked", "unknownat",
+             "idperror", "nbffuture", "json", "flatjson", "nested", "mutpayload", "mutsig", "muthdr", "trunc", "emptykey", "expiredleeway"]
+
+
+def gen_cookie_scripts(tier, seed):
+    scripts = []
+    reps = 2 if tier == "quick" else 12
+    n = 0
+    for sel in ("roundrobin", "unsigned", "any"):
+        cfg = {"tokenAuth": True, "smartCard": False, "auth": "openid", "sel": sel,
+               "hosts": [["H1", ":", "PA"]] if sel == "roundrobin" else [["H1", ":", "PA"], ["H1", ":", "PB"]], "verifyIp": True, "idle": 0}
+        for kind in BAD_KINDS + ["good", "none"]:
+            for rep in range(reps):
+                for tr in ("ws", "legacy"):
+                    for cls in ("valid", "long", "trunc") if kind in ("good", "expired") else ("valid",):
+                        ck = kind if kind in ("good", "none") else "bad:" + kind
+                        steps = [{"k": "hs", "cls": "valid", "caps": 2, "major": 1, "minor": 0}, {"k": "create", "cls": cls, "cookie": ck},
+                                 {"k": "auth", "cls": "valid"}, {"k": "chan", "cls": "valid", "name": ["H1"], "port": "PA"}]
+                        scripts.append({"id": "k%05d-%s" % (n, kind), "origin": "cookie:%s" % kind, "cfg": cfg, "transport": tr, "tun": dict(H_A, user="user1"), "steps": steps})
+                        n += 1
+    return scripts
